@@ -24,12 +24,14 @@ def run_backends(c):
             if len(c.samples) < 6:
                 c.sample({"site": s["key"], "snippet": T.one_line(s["snippet"]), "expr": s["lean"]})
     c.cov["backend_bitcast_kinds_covered"] = {b: sorted(k) for b, k in kinds.items()}
-    c.cov["backend_bitcast_kinds_not_covered"] = ["I64ToP64", "P64ToI64", "PToP64", "P64ToP", "I32ToP", "PToI32", "I32ToL", "LToI32",
-                                                  "I64ToL", "LToI64", "PToL", "LToP", "Sequence(..)"]
+    c.cov["backend_bitcast_kinds_not_covered"] = ["PToP64", "P64ToP", "I32ToL", "LToI32", "I64ToL", "LToI64", "PToL", "LToP",
+                                                  "Sequence through Length"]
     c.assumptions += [
-        "backend half of C04 covers the numeric Bitcasts {None, F32ToI32, I32ToF32, F64ToI64, I64ToF64, I32ToI64, I64ToI32, F32ToI64, "
-        "I64ToF32}; the pointer / length / pointer-or-i64 Bitcasts (identity or 32<->64-bit zero-extension/wrap under wasm32) and "
-        "Sequence are not extracted from the backends (string payloads need per-language handling of the ptr/len temporaries)",
+        "backend half of C04 covers the Bitcasts whose operand is a number: {None, F32ToI32, I32ToF32, F64ToI64, I64ToF64, I32ToI64, "
+        "I64ToI32, F32ToI64, I64ToF32, I64ToP64, P64ToI64, I32ToP, PToI32, Sequence[F32ToI32,I32ToP], Sequence[PToI32,I32ToF32], "
+        "Sequence[F64ToI64,I64ToP64], Sequence[P64ToI64,I64ToF64]} (pointer slots modelled under the wasm32 data model: Pointer = 32 bits, "
+        "PointerOrI64 = 64 bits); Bitcasts whose operand is a pointer or a length (PToP64, P64ToP, PToL, LToP, I32ToL, LToI32, I64ToL, "
+        "LToI64) are not extracted (string payloads need per-language handling of the ptr/len temporaries)",
         "Go has its own `cast` function (crates/go/src/lib.rs:3188) rather than perform_cast; it is covered like the others",
         "Scalar/Langs.lean semantics of C#, Go, MoonBit, D are not validated against a compiler; Rust, C, C++ are (natively, sampled inputs)",
     ]
